@@ -345,9 +345,9 @@ def build():
     u.raw(STREAM)
     u._emit('impl<T> Streaming<T> {'); u._open_header = 'impl<T> Streaming<T> {'
     nob = [lambda t: t.sub_code('R12', r'\bwhere\s+B: HttpBody[^{]*', '')]
-    u.fn(D, 'new_response', within='impl<T> Streaming<T>', sig_edits=nob,
+    u.fn(D, 'new_response', within='impl<T> Streaming<T>', sig_edits=nob, props=['C02', 'C05', 'C06'],   # callee of create_response: encoding and size limit pass through it
          ensures=[Clause('N1_expects_the_status_in_trailers', 'r.direction == Direction::Response(status_code) && r.encoding == encoding && r.max_message_size == max_message_size && r.body@ == erased(body) && r.decoder@ == erased_decoder(decoder)')])
-    u.fn(D, 'new_empty', within='impl<T> Streaming<T>', sig_edits=nob,
+    u.fn(D, 'new_empty', within='impl<T> Streaming<T>', sig_edits=nob, props=['C02', 'C05', 'C06'],
          ensures=[Clause('N2_expects_nothing_more', 'r.direction == Direction::EmptyResponse && r.body@ == erased(body) && r.decoder@ == erased_decoder(decoder)')])
     u.fn(D, 'new_request', within='impl<T> Streaming<T>', sig_edits=nob,
          ensures=[Clause('N3_request_stream', 'r.direction == Direction::Request && r.encoding == encoding && r.max_message_size == max_message_size && r.body@ == erased(body) && r.decoder@ == erased_decoder(decoder)')])
